@@ -39,6 +39,9 @@ def profiles_for(pid, tier):
                             opt=["hit", "miss"], callers=[1, 2]))
         edge.append(profile("2keys-collide-insert", "fifo", keys=[1, 2], hash={1: 3, 2: 3}, max_steps=6 if thorough else 5,
                             env=["ins", "rem"], opt=["hit", "miss"], callers=[1, 2]))
+    # narrow alphabet, deep: a superseded fetch whose origin resolves after a later fetch has started
+    edge.append(profile("2callers-fetch-insert-remove", "lru", callers=[1, 2], kinds=["fetch"], opt=["miss"],
+                        req=["ok", "err"], env=["ins", "rem", "cancel"], max_steps=10 if thorough else 9, max_user_ops=2))
     for a in ALGOS:
         rand.append(profile(f"{a}-rand", a, keys=[1, 2], hash={1: 4, 2: 4}, callers=[1, 2, 3, 4]))
     return edge, rand
@@ -144,7 +147,7 @@ def trace_check(d, p, scripts, invariant, tag, max_rounds=6):
                 raise core.ToolError(f"Trace_Inflight did not consume the whole trace:\n{r['out'][-2000:]}")
             break
         ls = re.findall(r"/\\ l = (\d+)", r["out"])
-        bads = re.findall(r"/\\ bad = (\{.*\})", r["out"])
+        bads = [core.last_var(r["out"], "bad")]
         line_no = int(ls[-1]) - 1
         acc = 0
         for i, s in enumerate(pending):
